@@ -8,6 +8,10 @@ CLAIMED = {
    text="Seeded search over schedules of 2-5 concurrent read-modify-write clients on 1-2 shared documents of a real DatabaseContext on rosmar, pre-empted at every storage operation, contended lock and inserted yield, with forced CAS mismatches at every retry point; oracle = direct clauses (acknowledged revision present, own and increasing sequence, one child per parent, single chain, conflict error for losers, changes feed announces the final revision at quiescence) plus porcupine linearizability of the recorded invoke/return history against 'put(parent) succeeds iff parent is the current revision'. Sampling, not proof.",
    note="Trusts rosmar's CAS/xattr/tombstone semantics as a stand-in for Couchbase Server and the simulator's replacement mutex types; interleavings below storage-op / lock granularity are not explored.",
    technique="deterministic simulation (seeded scheduler over storage ops, locks, feed) + porcupine linearizability", design="4/C05"),
+ "C07": dict(level="exploration",
+   text="Seeded search over two run shapes. 'alloc': 1-3 real sequenceAllocators sharing the counter document, tasks calling nextSequence / nextSequenceGreaterThan(x below, inside and above the window) / releaseSequence / idle (release monitor on the fake clock) / Stop, interleaved at the counter operation, the allocator mutex and the unused-sequence writes, with batch growth on and off. 'db': 1-2 whole DatabaseContexts on one bucket with document writes of every outcome (success, sync-function rejection, conflict, CAS retry, storage error, unknown-outcome timeout) and principal updates. Faults: error / lost-timeout / CAS mismatch / node crash at storage operations. Oracle from what reached storage (observed at the storage seam): uniqueness of handed-out and carried numbers, nextSequenceGreaterThan(x) > x, per-key strictly increasing sequences in storage order, and conservation at quiescence: {1..counter} = handed out or carried (sequence / unused_sequences) or published as unused, exempting only numbers whose publishing write was itself the injected fault or that belong to an unknown-outcome write. Crash runs assert uniqueness only.",
+   note="Trusts rosmar's counter/add semantics; interleavings below storage-op / lock granularity not explored; conservation is checked only after every allocator stopped.",
+   technique="deterministic simulation with storage fault injection; ledger oracle over operations observed at the storage seam", design="4/C07"),
 }
 
 NA = {
